@@ -452,11 +452,31 @@ def evaluate__sum(self: XPathFunction, context: ta.ContextType = None) -> ta.One
         zero = 0 if len(self) == 1 else self.get_argument(context, index=1)
         return [] if zero is None else zero
 
+    if self.parser.version != '1.0':
+        # xs:untypedAtomic values are cast to xs:double, the other values
+        # have to be numbers or durations (xs:boolean is not a numeric type)
+        for k, x in enumerate(values):
+            if isinstance(x, UntypedAtomic):
+                try:
+                    values[k] = get_double(x.value, xsd_version)
+                except ValueError as err:
+                    if isinstance(context, XPathSchemaContext):
+                        return []
+                    raise self.error('FORG0001', err) from None
+            elif isinstance(x, bool) or \
+                    not isinstance(x, (int, float, decimal.Decimal, Duration)):
+                if isinstance(context, XPathSchemaContext):
+                    return []
+                raise self.error('FORG0006', f'cannot apply fn:sum() to {x!r}')
+
     if all(isinstance(x, (decimal.Decimal, int)) for x in values):
         result = sum(values) if len(values) > 1 else values[0]
     elif all(isinstance(x, DayTimeDuration) for x in values) or \
             all(isinstance(x, YearMonthDuration) for x in values):
-        result = sum(values[1:], start=values[0])
+        try:
+            result = sum(values[1:], start=values[0])
+        except OverflowError as err:
+            raise self.error('FODT0002', err) from None
     elif any(isinstance(x, Duration) for x in values):
         raise self.error('FORG0006', 'invalid sum of duration values')
     elif any(isinstance(x, (StringProxy, AnyURI)) for x in values):
